@@ -324,3 +324,10 @@ Theorem C01_zero_values_behave_as_nil :
                              sv_contexts) [Slip; Ref] = true.
 Proof. exact zero_values_behave_as_nil. Qed.
 Print Assumptions C01_zero_values_behave_as_nil.
+
+(* length of a dotted list (repo_fixes/C01-20, found by the thorough tier): a type error in every mode. *)
+Theorem C01_length_of_dotted_list_is_error :
+  forallb (fun m => match fst (run m 20 [EPrim PLength [EPrim PCons [I 9; ET]]]) with Er EType => true | _ => false end)
+          [Slip; Ref; Chk] = true.
+Proof. exact length_of_dotted_list_is_error. Qed.
+Print Assumptions C01_length_of_dotted_list_is_error.
